@@ -96,7 +96,7 @@ impl XTime {
 
 fn extreme_timing_strategy() -> impl Strategy<Value = Timing> {
     let cycle = prop_oneof![
-        2 => prop::sample::select(vec![f32::MIN_POSITIVE, 1.0e-30, 1.0e-10, 1.0e-3, 1.0, 1.0e10, 1.0e30, 2.0e38, 3.0e38]),
+        2 => prop::sample::select(vec![f32::MIN_POSITIVE, 1.0e-30, 1.0e-10, 1.0e-3, 1.0, 1.0e10, 1.0e30, 2.0e38, 3.0e38, f32::from_bits(1), f32::from_bits(2), f32::from_bits(3), 1.0e-42]),
         2 => log_uniform(-37.9, 30.0),
         2 => cycle_strategy(),
     ];
